@@ -18,6 +18,7 @@ import (
 	"time"
 
 	pb "github.com/jamf/regatta/regattapb"
+	"github.com/jamf/regatta/replication"
 	"github.com/jamf/regatta/storage"
 
 	"verifharness/internal/cluster"
@@ -121,7 +122,10 @@ func runFollowCase(r *ev.Run, c followCase) {
 		broken("create table: " + err.Error())
 		return
 	}
-	f, err := cluster.StartFollower(l.ReplAddr, cluster.FollowerOpts{Opts: cluster.Opts{Nodes: 1}, NoManager: true})
+	// a generous log RPC timeout: one poll carries megabytes (gzip, race build, shared machine); with
+	// the helper's 5 s default a loaded machine can starve every attempt and nothing is ever applied
+	f, err := cluster.StartFollower(l.ReplAddr, cluster.FollowerOpts{Opts: cluster.Opts{Nodes: 1}, NoManager: true,
+		Repl: replication.Config{Workers: replication.WorkerConfig{LogRPCTimeout: 90 * time.Second}}})
 	if err != nil {
 		broken("follower start: " + err.Error())
 		return
@@ -179,7 +183,7 @@ func runFollowCase(r *ev.Run, c followCase) {
 		return
 	}
 	// bounded wait for the follower's recorded leader index (logical condition; the bound is a watchdog)
-	deadline := time.Now().Add(90 * time.Second)
+	deadline := time.Now().Add(180 * time.Second)
 	var fli uint64
 	for {
 		if li, err := tableLeaderIndex(fe, "t"); err == nil {
@@ -228,7 +232,7 @@ func runFollowCase(r *ev.Run, c followCase) {
 func followPlan(r *ev.Run) []followCase {
 	var out []followCase
 	for i := 0; i < r.Pick(1, 6); i++ {
-		out = append(out, followCase{Part: "follower", Idx: i, Seed: r.Seed*6_000_101 + int64(i)*977, Writes: r.Pick(36, 60)})
+		out = append(out, followCase{Part: "follower", Idx: i, Seed: r.Seed*6_000_101 + int64(i)*977, Writes: r.Pick(36, 48)})
 	}
 	return out
 }
